@@ -351,3 +351,17 @@ func RunNullEmptyAbsent(r *chk.Run) {
 	runPatternSpace(r, "C13", []string{"N"}, "table (VARCHAR max 255 bytes, CHAR max 300 bytes, BLOB 2 length bytes); all 64 / 64 / 4096 {value, NULL, absent, empty string}^3 patterns of write / delete / update images x 2 wire configurations, streamed through the real Stream: NULL => Data nil and not IsEmpty, empty => Data non-nil with length 0, absent => IsEmpty")
 	r.Sample("e2e", map[string]interface{}{"table": "texts(vc, ch, bl)", "after": "empty,NULL,absent", "expect": "vc: Data=[] ; ch: Data=nil ; bl: IsEmpty"})
 }
+
+// RunImageWalk is the end-to-end half of C09: the streamer's own offset
+// bookkeeping over row images (presence and NULL bitmaps indexed correctly,
+// every image consumed exactly) on the item and string tables.
+func RunImageWalk(r *chk.Run) {
+	runPatternSpace(r, "C09", []string{"", "N"}, "tables item(id INT, label VARCHAR(40), qty SMALLINT UNSIGNED) and texts(VARCHAR, CHAR, BLOB); all 64 / 64 / 4096 {value, NULL, absent, other}^3 patterns of write / delete / update images x 2 wire configurations (one with bitmap padding bits set), two rows per event, streamed through the real Stream")
+}
+
+// RunOrdinalAttribution is a second end-to-end half of C15: column names and
+// signedness come from the table mapper by ordinal position, also when the
+// row image is partial.
+func RunOrdinalAttribution(r *chk.Run) {
+	runPatternSpace(r, "C15", []string{"S", "T"}, "integer tables of alternating signedness with top-bit values; all {value, NULL, absent, other extreme}^3 patterns of write / delete / update images (partial images shift the position of a column inside the image, not its ordinal)")
+}
